@@ -147,6 +147,8 @@ class _CGMYLevyMeasure(LevyMeasure):
         return self.__integrate_levy_measure_a_to_b(a, b)
 
     def integrate_against_x(self, a: float, b: float) -> float:
+        if a == b:
+            return 0.0
         c, g, m, y = (
             self.parameters.c,
             self.parameters.g,
